@@ -264,6 +264,8 @@ var pairCatalogue = []FieldPair{
 	{"slice", "[]Leaf", "[]*Leaf", "field"},
 	{"slice", "StrList2", "StrList", "field"}, // two defined slice types over one element type: only :typecast fits
 	{"slice", "IntList", "IntList", "field"},
+	{"slice", "TagsAlias", "TagsAlias", "field"}, // an alias of a slice type: a slice like any other
+	{"slice", "[]string", "TagsAlias", "field"},
 	{"slice", "[]map[string]int", "[]map[string]int", "field"},
 	{"slice", "[]Inner2", "[]Inner1", "field"},
 	{"slice", "[]error", "[]error", "field"},
@@ -376,6 +378,7 @@ type Coded int
 
 type StrList []string
 type StrList2 []string
+type TagsAlias = []string
 
 // LocalCode has String() on its pointer receiver only.
 type LocalCode int
@@ -497,6 +500,8 @@ type Options struct {
 	Clones          float64 // probability of a method converting a struct type to itself
 	CaseBias        bool    // prefer :case:off and explicit notations whose destination differs from a field only in case (C19)
 	HiddenBias      bool    // prefer pairs over struct types with members the generated package cannot see, and skip patterns fitting them (C05)
+	SkipTwins       float64 // probability that two methods of a file carry :case:off and :skip regexps differing only in the case of an escape (\d / \D)
+	HookGenerated   float64 // probability that a hook notation names a function that is itself generated from the file
 	SiblingUse      bool    // a sibling file refers to a function that only exists once it is generated
 	UnreturnedErr   float64 // probability of a method without error result whose notations name an error-returning source (must be rejected)
 }
@@ -681,6 +686,14 @@ var nestedMembers = map[string][][2]string{
 	"LocalPod":  {{"Name", "Kind"}, {"Name", "Name"}},
 }
 
+// wholeCopyMembers: struct types copied as a whole when source and destination agree: {member, a source of its type, a literal}
+var wholeCopyMembers = map[string][3]string{
+	"Inner1":   {"A", "SpareInt", "7"},
+	"ext.Pub1": {"Name", "SpareStr", "\"lit\""},
+	"Leaf":     {"V", "SpareInt", "3"},
+	"v2.Pod":   {"Name", "SpareStr", "\"pod\""},
+}
+
 // cloneFields: the fields of Doc (LocalTypes), for methods converting a struct type to itself.
 var cloneFields = []FieldDecl{
 	{Name: "Title", Type: "string", Pair: FieldPair{"identical", "string", "string", "field"}, SrcName: "Title"},
@@ -753,6 +766,10 @@ func (g *genState) genMethod(idx int) Method {
 	}
 	if g.rng.Intn(2) == 0 {
 		m.DocLines = append(m.DocLines, fmt.Sprintf("%s converts %s.", m.Name, src))
+		if g.rng.Intn(4) == 0 {
+			m.DocLines = append(m.DocLines, "It copies 100% of the fields; %d, %s and %v are only text here.")
+			m.Features = append(m.Features, "percent-in-method-doc")
+		}
 	}
 	if g.opt.Toggles {
 		for _, t := range []string{"case", "getter", "stringer", "typecast"} {
@@ -828,6 +845,18 @@ func (g *genState) genMethod(idx int) Method {
 			}
 			m.Features = append(m.Features, "nested-notation-naming-a-nested-source-member")
 		}
+		if mem, ok := wholeCopyMembers[f.Pair.Dst]; ok && f.Pair.Class == "identical" && f.Pair.Dst == f.Pair.Src && g.opt.Explicit > 0 && g.rng.Intn(3) == 0 {
+			// a notation on a member of a struct field that is assignable as a whole
+			switch g.rng.Intn(3) {
+			case 0:
+				m.Notations = append(m.Notations, ":map "+mem[1]+" "+f.Name+"."+mem[0])
+			case 1:
+				m.Notations = append(m.Notations, ":skip "+f.Name+"."+mem[0])
+			default:
+				m.Notations = append(m.Notations, ":literal "+f.Name+"."+mem[0]+" "+mem[2])
+			}
+			m.Features = append(m.Features, "notation-on-member-of-whole-copied-struct")
+		}
 		if g.rng.Float64() >= g.opt.Explicit/2 {
 			continue
 		}
@@ -857,6 +886,8 @@ func (g *genState) genMethod(idx int) Method {
 			m.Features = append(m.Features, "skip")
 		case 1:
 			pats := []string{"/^" + path[:1] + "/", "/idden$/", "/\\.h/", "/(?i)" + strings.ToLower(path) + "/", "/^" + path + "\\./", "/unexp/", "/\\.y$/"}
+			// counted repetitions (a comma inside the expression) and a group that stays case-sensitive under (?i)
+			pats = append(pats, "/^.{2,5}$/", "/^[A-Za-z]{3,}$/", "/^(?-i:"+path[:1]+")/", "/^(?-i:"+strings.ToLower(path[:1])+")/")
 			if g.opt.HiddenBias && g.rng.Intn(2) == 0 {
 				// patterns fitting members the generated package cannot see
 				pats = []string{"/idden$/", "/\\.h/", "/unexp/", "/\\.y$/", "/ecret$/", "/(?i)HIDDEN/", "/^" + path + "\\.[a-z]/"}
@@ -935,6 +966,17 @@ func (g *genState) genMethod(idx int) Method {
 			}
 			m.Features = append(m.Features, "nested-notation")
 		case 7:
+			if g.opt.CaseBias && g.rng.Intn(3) == 0 {
+				// a :skip written BEFORE the method's :case:off line and differing from the field in case only: the
+				// matcher is built under the exact rule and queried under the folded one
+				v := strings.ToLower(path)
+				if g.rng.Intn(2) == 0 && len(path) > 2 {
+					v = "/" + strings.ToLower(path[1:]) + "$/"
+				}
+				m.Notations = append([]string{":skip " + v}, m.Notations...)
+				m.Features = append(m.Features, "skip-before-case-off")
+				break
+			}
 			if g.rng.Intn(2) == 0 || g.opt.CaseBias {
 				// destinations of :map/:conv/:literal compare case-sensitively whatever the case rule
 				v := caseVariant(g.rng, path)
@@ -1253,6 +1295,34 @@ func Generate(seed int64, index int, opt Options) *Case {
 			g.feat("embedded-interface")
 		}
 		c.Interfaces = append(c.Interfaces, it)
+	}
+	var all []*Method
+	for ii := range c.Interfaces {
+		for mi := range c.Interfaces[ii].Methods {
+			all = append(all, &c.Interfaces[ii].Methods[mi])
+		}
+	}
+	if opt.SkipTwins > 0 && len(all) >= 2 && rng.Float64() < opt.SkipTwins {
+		// two :skip regexps that differ only in the case of an escape, both under :case:off: each method
+		// must obey its own (a matcher compiled for one must not serve the other)
+		tw := [][2]string{{"/\\d$/", "/\\D$/"}, {"/^\\w+$/", "/^\\W+$/"}, {"/\\S\\d/", "/\\s\\D/"}}[rng.Intn(3)]
+		a, b := rng.Intn(len(all)), rng.Intn(len(all)-1)
+		if b >= a {
+			b++
+		}
+		all[a].Notations = append(all[a].Notations, ":case:off", ":skip "+tw[0])
+		all[b].Notations = append(all[b].Notations, ":case:off", ":skip "+tw[1])
+		g.feat("skip-regexp-twins-differing-in-escape-case")
+	}
+	if opt.HookGenerated > 0 && len(all) >= 2 && rng.Float64() < opt.HookGenerated {
+		// a hook notation naming a function that only exists once it is generated: not a declared function
+		a, b := rng.Intn(len(all)), rng.Intn(len(all)-1)
+		if b >= a {
+			b++
+		}
+		all[a].Notations = append(all[a].Notations, ":"+[]string{"preprocess", "postprocess"}[rng.Intn(2)]+" "+all[b].Name)
+		g.feat("hook-names-a-generated-method")
+		c.Features["must-reject:hook-names-a-generated-method"]++
 	}
 	if opt.CrossConv > 0 {
 		used := false
@@ -1690,7 +1760,11 @@ func GenerateLayout(seed int64, index int, compound bool) *Case {
 		sb.WriteString("import \"cvcase/ext\"\n\nvar _ ext.Status\n")
 	}
 	decl := func(k int) string {
-		switch pick(7) {
+		switch pick(8) {
+		case 7:
+			// another generator's directive, on a declaration of its own
+			feat("foreign-go-generate-directive")
+			return fmt.Sprintf("\n// Kind%d is enumerated.\n//\n//go:generate stringer -type=Kind%d\ntype Kind%d int\n", k, k, k)
 		case 0:
 			return fmt.Sprintf("\n// Const%d is kept.\nconst Const%d = %d // trailing\n", k, k, k)
 		case 1:
@@ -1784,7 +1858,7 @@ func GenerateLayout(seed int64, index int, compound bool) *Case {
 				case 0:
 					m.DocLines = []string{fmt.Sprintf("M%d is documented.", mi), "second line."}
 					if pick(2) == 0 {
-						m.DocLines = append(m.DocLines, "Price is quoted in $USD, e.g. $5 per ${unit} and $1.")
+						m.DocLines = append(m.DocLines, "Price is quoted in $USD, e.g. $5 per ${unit} and $1; 100% of it, %d and %s are only text.")
 						feat("dollar-in-method-doc")
 					}
 				case 1:
